@@ -67,6 +67,8 @@ def fresh_names(fi, model=None):
                             pairs.append((n.id, None))
         for name, v in pairs:
             ok = False
+            while isinstance(v, ast.Subscript) and isinstance(v.value, (ast.Call, ast.Subscript)):
+                v = v.value       # a slice / element of a freshly created array is still local state
             if isinstance(v, (ast.List, ast.Dict, ast.Set, ast.Tuple, ast.ListComp, ast.DictComp, ast.SetComp, ast.Constant, ast.JoinedStr, ast.BinOp)):
                 ok = True
             elif isinstance(v, ast.Call):
